@@ -630,7 +630,12 @@ func (p *Parser) parseSwitch() ast.Node {
 			isDefaultCase = true
 		} else if p.curTokenIs(token.CASE) {
 			p.nextToken() // move to the token following "case"
-			caseExprs = append(caseExprs, p.parseExpression(LOWEST))
+			caseExpr := p.parseExpression(LOWEST)
+			if caseExpr == nil {
+				p.setTokenError(p.curToken, "invalid case expression")
+				return nil
+			}
+			caseExprs = append(caseExprs, caseExpr)
 			for p.peekTokenIs(token.COMMA) {
 				// Once an error is set the tokens no longer advance
 				if p.err != nil {
@@ -638,7 +643,12 @@ func (p *Parser) parseSwitch() ast.Node {
 				}
 				p.nextToken() // move to the comma
 				p.nextToken() // move to the following expression
-				caseExprs = append(caseExprs, p.parseExpression(LOWEST))
+				caseExpr := p.parseExpression(LOWEST)
+				if caseExpr == nil {
+					p.setTokenError(p.curToken, "invalid case expression")
+					return nil
+				}
+				caseExprs = append(caseExprs, caseExpr)
 			}
 		} else {
 			p.setTokenError(p.curToken, "expected 'case' or 'default' (got %s)", p.curToken.Literal)
